@@ -140,7 +140,7 @@ end ZapVerif.C20
 
 /-! # `zapcore/level.go` and `http_handler.go` ARE the source (translator round 4, table `Gen.TransLevel`)
 
-`(*Level).unmarshalText`, `UnmarshalText`, `ParseLevel`, `Level.String`, `CapitalString`, `LevelOf` and
+`(*Level).unmarshalText`, `UnmarshalText`, `ParseLevel`, `Level.String`, `CapitalString` (`LevelOf`: Props/C05) and
 `AtomicLevel.serveHTTP`, `decodePutRequest`, `decodePutURL`, `decodePutJSON`, translated mechanically, are interpreted
 with `bytes.ToLower`, `fmt.Sprintf`, the `leveledEnabler` assertion, `Enabled`, `FormValue`, `Header.Get`, the JSON
 decoder's outcome and `error.Error` as parameters, `WriteHeader` / `Encode` as recorded calls.  The model functions the
@@ -331,81 +331,6 @@ theorem stringSpec_is_stringOf (P : Par) : ∀ l ∈ validLevels, stringSpec P l
   intro l hl
   simp only [validLevels, List.mem_cons, List.not_mem_nil, or_false] at hl
   rcases hl with h | h | h | h | h | h | h <;> subst h <;> constructor <;> simp [stringSpec, capitalSpec] <;> decide +kernel
-
-
-/-- `LevelOf`: an enabler that knows its level is asked; otherwise the first of Debug … Fatal it enables, else
-    `InvalidLevel` (= 6) -/
-def levelOfSpec (P : Par) (e : Val) : Int :=
-  match P.asLeveled e with
-  | some lv => P.leveledLevel lv
-  | none =>
-    if P.enabled e (-1) then -1 else if P.enabled e 0 then 0 else if P.enabled e 1 then 1 else if P.enabled e 2 then 2
-    else if P.enabled e 3 then 3 else if P.enabled e 4 then 4 else if P.enabled e 5 then 5 else 6
-
-/-- one iteration of the scan: return `l` if enabled, else go on with `l + 1` -/
-theorem LevelOf_iter_matches_source (P : Par) (e v0 : Val) (l : Int) (h1 : -1 ≤ l) (h2 : l ≤ 5) (fl : Env) (fuel : Nat) :
-    execS (X P) (exec (X P) (fuel + 1)) LevelOf_loop0 ⟨[("p0", e), ("l0", v0), ("l1", .bool false), ("l2", .int l)], fl⟩ =
-      if P.enabled e l then .ret [.int l] ⟨[("p0", e), ("l0", v0), ("l1", .bool false), ("l2", .int l)], fl⟩
-      else execS (X P) (exec (X P) fuel) LevelOf_loop0 ⟨[("p0", e), ("l0", v0), ("l1", .bool false), ("l2", .int (l + 1))], fl⟩ := by
-  have hw : wrap .i8 (l + 1) = l + 1 := by simp only [wrap]; omega
-  unfold LevelOf_loop0
-  rw [execS_loop]
-  cases he : P.enabled e l
-  · simp [h2, he, hw, exec_succ]
-  · simp [h2, he]
-
-theorem LevelOf_end_matches_source (P : Par) (e v0 : Val) (fl : Env) (fuel : Nat) :
-    execS (X P) (exec (X P) fuel) LevelOf_loop0 ⟨[("p0", e), ("l0", v0), ("l1", .bool false), ("l2", .int 6)], fl⟩ =
-      .normal ⟨[("p0", e), ("l0", v0), ("l1", .bool false), ("l2", .int 6)], fl⟩ := by
-  unfold LevelOf_loop0
-  rw [execS_loop]
-  simp
-
-/-- the whole scan from Debug: seven iterations at most -/
-theorem LevelOf_loop_matches_source (P : Par) (e v0 : Val) (fl : Env) (fuel : Nat) :
-    execS (X P) (exec (X P) (fuel + 7)) LevelOf_loop0 ⟨[("p0", e), ("l0", v0), ("l1", .bool false), ("l2", .int (-1))], fl⟩ =
-      if P.enabled e (-1) then .ret [.int (-1)] ⟨[("p0", e), ("l0", v0), ("l1", .bool false), ("l2", .int (-1))], fl⟩
-      else if P.enabled e 0 then .ret [.int 0] ⟨[("p0", e), ("l0", v0), ("l1", .bool false), ("l2", .int 0)], fl⟩
-      else if P.enabled e 1 then .ret [.int 1] ⟨[("p0", e), ("l0", v0), ("l1", .bool false), ("l2", .int 1)], fl⟩
-      else if P.enabled e 2 then .ret [.int 2] ⟨[("p0", e), ("l0", v0), ("l1", .bool false), ("l2", .int 2)], fl⟩
-      else if P.enabled e 3 then .ret [.int 3] ⟨[("p0", e), ("l0", v0), ("l1", .bool false), ("l2", .int 3)], fl⟩
-      else if P.enabled e 4 then .ret [.int 4] ⟨[("p0", e), ("l0", v0), ("l1", .bool false), ("l2", .int 4)], fl⟩
-      else if P.enabled e 5 then .ret [.int 5] ⟨[("p0", e), ("l0", v0), ("l1", .bool false), ("l2", .int 5)], fl⟩
-      else .normal ⟨[("p0", e), ("l0", v0), ("l1", .bool false), ("l2", .int 6)], fl⟩ := by
-  rw [show fuel + 7 = (fuel + 6) + 1 from rfl, LevelOf_iter_matches_source P e v0 (-1) (by omega) (by omega),
-    show fuel + 6 = (fuel + 5) + 1 from rfl, LevelOf_iter_matches_source P e v0 (-1 + 1) (by omega) (by omega),
-    show fuel + 5 = (fuel + 4) + 1 from rfl, LevelOf_iter_matches_source P e v0 (-1 + 1 + 1) (by omega) (by omega),
-    show fuel + 4 = (fuel + 3) + 1 from rfl, LevelOf_iter_matches_source P e v0 (-1 + 1 + 1 + 1) (by omega) (by omega),
-    show fuel + 3 = (fuel + 2) + 1 from rfl, LevelOf_iter_matches_source P e v0 (-1 + 1 + 1 + 1 + 1) (by omega) (by omega),
-    show fuel + 2 = (fuel + 1) + 1 from rfl, LevelOf_iter_matches_source P e v0 (-1 + 1 + 1 + 1 + 1 + 1) (by omega) (by omega),
-    LevelOf_iter_matches_source P e v0 (-1 + 1 + 1 + 1 + 1 + 1 + 1) (by omega) (by omega),
-    show (-1 : Int) + 1 + 1 + 1 + 1 + 1 + 1 + 1 = 6 from rfl, LevelOf_end_matches_source]
-  rfl
-
-theorem LevelOf_matches_source (P : Par) (e : Val) (fl : Env) (fuel : Nat) :
-    run (X P) (fuel + 8) "LevelOf" [e] fl = .done [.int (levelOfSpec P e)] fl := by
-  apply run_of_fin (X P) _ _ Gen.TransLevel.LevelOf [e] _ _ _ rfl rfl
-  rw [exec_succ]
-  unfold levelOfSpec
-  cases ha : P.asLeveled e with
-  | some lv => simp [LevelOf_body, ha]
-  | none =>
-    simp [LevelOf_body, ha, LevelOf_loop_matches_source]
-    by_cases e1 : P.enabled e (-1) = true
-    · simp [e1]
-    by_cases e2 : P.enabled e 0 = true
-    · simp [e1, e2]
-    by_cases e3 : P.enabled e 1 = true
-    · simp [e1, e2, e3]
-    by_cases e4 : P.enabled e 2 = true
-    · simp [e1, e2, e3, e4]
-    by_cases e5 : P.enabled e 3 = true
-    · simp [e1, e2, e3, e4, e5]
-    by_cases e6 : P.enabled e 4 = true
-    · simp [e1, e2, e3, e4, e5, e6]
-    by_cases e7 : P.enabled e 5 = true
-    · simp [e1, e2, e3, e4, e5, e6, e7]
-    simp [e1, e2, e3, e4, e5, e6, e7]
 
 
 /-! ### http_handler.go -/
